@@ -90,7 +90,7 @@ def input_value_bytes(value, resolution, filler="repeat"):
 class InstanceModel:
     def __init__(self, type=0, enabled=True, resolution=8, value=0, filler="repeat", scheme=0,
                  filter=0, filter_width=8, filter_mask=None, groups=(), refuse_schemes=(),
-                 next_values=()):
+                 next_values=(), filter_force=0, ignore_set_filter=False):
         if filter_width not in (8, 16, 24):
             raise ValueError("filter_width %r" % (filter_width,))
         self.type = type
@@ -104,6 +104,8 @@ class InstanceModel:
         self.groups = set(groups)                 # instance groups this instance belongs to
         # behaviour switches
         self.filter_mask = filter_mask            # None or the set of filter bits the unit implements
+        self.filter_force = filter_force & ((1 << filter_width) - 1)   # events the unit keeps enabled whatever is written
+        self.ignore_set_filter = ignore_set_filter  # the unit does not take a new filter over (keeps reporting the old one)
         self.refuse_schemes = set(refuse_schemes)  # schemes this unit does not take over
         self.next_values = list(next_values)      # the live input value moves on after each latch
         # read-out state
@@ -132,7 +134,9 @@ class InstanceModel:
             f &= (1 << self.filter_width) - 1
             if self.filter_mask is not None:
                 f &= self.filter_mask
-            self.filter = f
+            f |= self.filter_force
+            if not self.ignore_set_filter:
+                self.filter = f
         elif op == OP_QUERY_INSTANCE_TYPE:
             return self.type
         elif op == OP_QUERY_RESOLUTION:
